@@ -240,7 +240,7 @@ func TestCallTrees(t *testing.T) {
 		k := evid.Scale(6, 16)
 		for i := 0; i < k && len(all) > 0; i++ {
 			p := all[rapid.IntRange(0, len(all)-1).Draw(t, "pos")]
-			what := rapid.IntRange(0, 2).Draw(t, "what")
+			what := rapid.IntRange(0, 3).Draw(t, "what")
 			cc := cloneCase(c)
 			prog := cc.Scripts[p.script]
 			sl := slots(&prog)[p.si]
@@ -249,6 +249,30 @@ func TestCallTrees(t *testing.T) {
 			switch what {
 			case 0:
 				ins, lab = gen.NCall("exit"), "insert/exit"
+			case 3:
+				// exit() evaluated inside a statement of another kind: a value statement, an assignment source, a
+				// condition, an argument - the script still ends with that statement
+				lab = "insert/exit-inside-expression"
+				switch rapid.IntRange(0, 8).Draw(t, "exitform") {
+				case 0:
+					ins = gen.NParen(gen.NCall("exit"))
+				case 1:
+					ins = gen.NList(gen.NCall("exit"))
+				case 2:
+					ins = gen.NUnary("!", gen.NCall("exit"))
+				case 3:
+					ins = gen.NBin("==", gen.NCall("exit"), gen.NNil())
+				case 4:
+					ins = gen.NBin("in", gen.NCall("exit"), gen.NList(gen.NNil()))
+				case 5:
+					ins = gen.NSet("zz", gen.NCall("exit"))
+				case 6:
+					ins = gen.NCall("add_key", id("zz"), gen.NCall("exit"))
+				case 7:
+					ins = gen.NIf([]*gen.Node{gen.NBin("==", gen.NCall("exit"), gen.NNil())}, [][]*gen.Node{{gen.NCall("probe", gen.NStr("in-branch-after-exit"))}}, nil, false)
+				default:
+					ins = gen.NMap(gen.NStr("k"), gen.NCall("exit"))
+				}
 			case 1:
 				ins, lab = gen.NCall("perr"), "insert/perr"
 			default:
